@@ -86,6 +86,13 @@ const netHTTPMws = `func mws(t *labrt.Trace, o labrt.Options) []MiddlewareFunc {
 					w.WriteHeader(299)
 					return
 				}
+				if i+1 == o.MwWrites {
+					w.Header().Set("X-Early", "1")
+					w.WriteHeader(200)
+					if f, ok := w.(http.Flusher); ok {
+						f.Flush()
+					}
+				}
 				next.ServeHTTP(w, r)
 			})
 		})
@@ -176,6 +183,12 @@ var fwTable = map[string]fwInfo{
 			t.Add("mw", fmt.Sprint(i), nil)
 			if i == o.ShortCircuit {
 				c.AbortWithStatus(299)
+			}
+			if i+1 == o.MwWrites {
+				// sends the header (a streaming / server-sent-events middleware) and does not abort: the chain goes on
+				c.Writer.Header().Set("X-Early", "1")
+				c.Writer.WriteHeaderNow()
+				c.Writer.Flush()
 			}
 		})
 	}
